@@ -528,10 +528,12 @@ func (n *node) check() error {
 }
 
 func (n *node) checkCardinality() error {
-	// Refine deviate nodes have varying cardinality so we let the compiler sort them.
-	if (n.Type() == NodeUnknown) || (n.Type() == NodeRefine) || n.IsDeviateNode() {
+	if n.Type() == NodeUnknown {
 		return nil
 	}
+	// Refine deviate nodes have varying cardinality so we let the compiler sort them.
+	// What does not vary is that their single-valued substatements are given once.
+	onlyOnce := (n.Type() == NodeRefine) || n.IsDeviateNode()
 	cmap := make(map[NodeType]int)
 	//Sum up the node types
 	for _, c := range n.children {
@@ -547,6 +549,8 @@ func (n *node) checkCardinality() error {
 	for k, v := range n.card {
 		nt := NodeType(k)
 		switch {
+		case onlyOnce && (v.End != '1' || cmap[k] <= 1):
+			continue
 		case v.Start == '1' && v.End == 'n' && cmap[k] < 1:
 			return fmt.Errorf("%s: missing required '%s' statement", ErrCard, nt)
 		case v.Start == '1' && v.End == '1' && cmap[k] < 1:
@@ -554,6 +558,9 @@ func (n *node) checkCardinality() error {
 		case v.End == '1' && cmap[k] > 1:
 			return fmt.Errorf("%s: only one '%s' statement is allowed", ErrCard, nt)
 		}
+	}
+	if onlyOnce {
+		return nil
 	}
 	//Ensure only valid nodes
 	for k, _ := range cmap {
